@@ -21,6 +21,7 @@ def run(ctx):
     S.apply_replay(ctx)
     S.regenerate(ctx)
     ctx.prove()
+    S.huge_offset_probe(ctx)
     if ctx.thorough():
         ctx.leanchecker()
     sizes = [60] * 12 if ctx.thorough() else [30] * 4
